@@ -852,6 +852,81 @@ def specRunB [DecidableEq V] [RewardFn R V] (c : Config) (fl : Flags) (L : Learn
     (specChunk c fl L s ch).bind fun r1 =>
     (specRunB c fl L r1.1 rest).map fun r2 => (r2.1, r1.2.1 ++ r2.2.1, r1.2.2 ++ r2.2.2)
 
+/-! ## `learning_info` in a batched pass
+
+In a batched pass the dict collects everything the learner writes while the whole batch is predicted and then learned
+(later writes `update` earlier ones), is merged into the BATCH row, and `Unbatch` then builds row i by `value[i]` for every
+cell, falling back to the whole value when that raises.  So every row of the batch receives every key written during
+the pass, and a value that happens to be subscriptable (list, tuple, str) is indexed by the row's position in the batch
+(a quirk: `{'tag': 'ab'}` in a batch of two gives 'a' and 'b').  `Subscript.idx v i` is Python's `v[i]` when it works. -/
+
+class Subscript (V : Type) where
+  idx : V → Nat → Option V
+
+/-- learner states in which the rows of a batch are predicted -/
+def predStates (L : Learner σ V) : σ → List (RowIn V R) → List σ
+  | _, [] => []
+  | s, r :: rs => s :: predStates L (L.predict s r.ctx r.acts).1 rs
+
+/-- learner states in which the rows of a batch are learned -/
+def learnStates (L : Learner σ V) : σ → List (RowIn V R) → List (Option V × Option Rat × Option Rat × Dict V) → List σ
+  | s, r :: rs, a :: as => s :: learnStates L (L.learn s r.ctx a.1 a.2.1 a.2.2.1 a.2.2.2) rs as
+  | _, _, _ => []
+
+/-- everything written to `learning_info` during one batched pass: predicts of all rows in order, then learns -/
+def batchInfo (L : InfoLearner σ V) (sp : Bool) (s sL : σ) (rows : List (RowIn V R))
+    (args : List (Option V × Option Rat × Option Rat × Dict V)) : Dict V :=
+  let ip := if sp then List.zipWith (fun (r : RowIn V R) st => L.pinfo st r.ctx r.acts) rows (predStates L.toLearner s rows) else []
+  let il := zip3With (fun (r : RowIn V R) st a => L.linfo st r.ctx a.1 a.2.1 a.2.2.1 a.2.2.2) rows (learnStates L.toLearner sL rows args) args
+  (ip ++ il).foldl Dict.update []
+
+/-- `Unbatch` on the info cells of row `i` of the batch -/
+def indexInfo [Subscript V] (info : Dict V) (i : Nat) : Dict V :=
+  info.map (fun kv => (kv.1, match Subscript.idx kv.2 i with
+    | some x => x
+    | none => kv.2))
+
+def mergeIndexed [Subscript V] (info : Dict V) : Nat → List (Row V R) → List (Row V R)
+  | _, [] => []
+  | i, o :: os => mergeInfo o (indexInfo info i) :: mergeIndexed info (i + 1) os
+
+/-- one batched pass with `learning_info`: as `stepChunk … true`, returning also the rows before merging and the info -/
+def stepChunkIB [DecidableEq V] [RewardFn R V] (c : Config) (fl : Flags) (L : InfoLearner σ V) (s : σ)
+    (chunk : List (Dict (Fld V R))) : Except Err (σ × List (Call V) × List (Row V R) × Dict V) :=
+  (prepAll c fl chunk).bind fun rows =>
+    let sp := shouldPred c L.hasScore
+    let scoreBased := c.eval == .ips && L.hasScore && !sp
+    let pp := if sp then predictPhase L.toLearner s rows else (s, [], [])
+    let ps := optList sp rows.length pp.2.1
+    let qq := if scoreBased then scorePhase L.toLearner pp.1 rows else (pp.1, [], [])
+    let scs := optList scoreBased rows.length qq.2.1
+    (evalsOf c scoreBased rows ps scs).bind fun evals =>
+    (learnsOf c L.toLearner qq.1 rows ps).bind fun ll =>
+    (mapM₃ (mkRow c fl sp true) rows ps evals).map fun out =>
+      let args := if c.learn != .none then
+          (match mapM₂ (learnArgs c) rows ps with
+            | .ok as => as
+            | .error _ => [])
+        else []
+      (ll.1, pp.2.2 ++ qq.2.2 ++ ll.2, out, batchInfo L sp s qq.1 rows args)
+
+def runIB [DecidableEq V] [RewardFn R V] [Subscript V] (c : Config) (fl : Flags) (L : InfoLearner σ V) :
+    σ → List (List (Dict (Fld V R))) → Except Err (σ × List (Call V) × List (Row V R))
+  | s, [] => .ok (s, [], [])
+  | s, ch :: rest =>
+    (stepChunkIB c fl L s ch).bind fun r1 =>
+    (runIB c fl L r1.1 rest).map fun r2 =>
+      (r2.1, r1.2.1 ++ r2.2.1, (mergeIndexed r1.2.2.2 0 r1.2.2.1).filter (fun o => !o.isEmpty) ++ r2.2.2)
+
+/-- batched `evaluate` for a learner that writes `learning_info` -/
+def evaluateIB [DecidableEq V] [RewardFn R V] [Subscript V] (c : Config) (L : InfoLearner σ V) (n : Nat)
+    (env : List (Dict (Fld V R))) (s : σ) : Outcome (σ × List (Call V) × List (Row V R)) :=
+  match env with
+  | [] => .ok (s, [], [])
+  | first :: _ =>
+    let miss := missingKeys c L.hasScore first
+    if !miss.isEmpty then .rejected miss else Outcome.ofExcept (runIB c (mkFlags first) L s (chunks n env))
+
 /-! ## Well-formedness of an environment (the hypotheses of the refinement theorems) -/
 
 /-- field shapes of one interaction agree with the flags taken from the first interaction -/
